@@ -11,4 +11,5 @@ def run(tier):
     # the vector-level algebra rests on CliqueVector applying the Factor operators clique by clique, and on combine adding a table only
     # into a clique that contains its clique (pv/contracts/cvec.py)
     from ..contracts import cvec
-    return reps + cvec.reports()
+    from ..contracts import aggsite
+    return reps + cvec.reports() + aggsite.reports(('logsumexp',))
